@@ -53,6 +53,7 @@ package parser
 
 import (
 	"context"
+	"errors"
 	"fmt"
 	"strings"
 	"sync"
@@ -129,6 +130,7 @@ func (p *Parser) Reset() {
 	p.currentToken = token.Token{}
 	p.depth = 0
 	p.ctx = nil
+	p.cancelErr = nil
 	p.positions = nil
 	p.strict = false
 	p.dialect = ""
@@ -233,6 +235,7 @@ type Parser struct {
 	currentToken token.Token
 	depth        int             // Current recursion depth
 	ctx          context.Context // Optional context for cancellation support
+	cancelErr    error           // The context's error once a poll has seen it done (cleared with ctx)
 	positions    []TokenPosition // Position mapping for error reporting
 	strict       bool            // Strict mode rejects empty statements
 	dialect      string          // SQL dialect for dialect-aware parsing (default: "postgresql")
@@ -545,7 +548,8 @@ func (p *Parser) ParseContext(ctx context.Context, tokens []token.Token) (*ast.A
 
 	// Store context for use during parsing
 	p.ctx = ctx
-	defer func() { p.ctx = nil }() // Clear context when done
+	p.cancelErr = nil
+	defer func() { p.ctx, p.cancelErr = nil, nil }() // Clear context when done
 
 	p.tokens = tokens
 	p.positions = nil // no position mapping for this input: drop the one of an earlier ParseWithPositions
@@ -567,7 +571,7 @@ func (p *Parser) ParseContext(ctx context.Context, tokens []token.Token) (*ast.A
 	// Parse statements using Type (int) comparisons for speed
 	for p.currentPos < len(tokens) && !p.isType(models.TokenTypeEOF) {
 		// Check context before each statement
-		if err := ctx.Err(); err != nil {
+		if err := p.pollContext(); err != nil {
 			// Clean up the AST on error
 			ast.ReleaseAST(result)
 			// Context cancellation is not a parsing error, return the context error directly
@@ -586,6 +590,11 @@ func (p *Parser) ParseContext(ctx context.Context, tokens []token.Token) (*ast.A
 
 		stmt, err := p.parseStatement()
 		if err != nil {
+			// A cancellation seen while the statement was being parsed makes the cursor read as end
+			// of input, so the statement fails (or ends early): the context error is what happened.
+			if p.cancelErr != nil && !errors.Is(err, p.cancelErr) {
+				err = fmt.Errorf("parsing cancelled: %w", p.cancelErr)
+			}
 			// Clean up the AST on error
 			ast.ReleaseAST(result)
 			return nil, err
@@ -599,6 +608,13 @@ func (p *Parser) ParseContext(ctx context.Context, tokens []token.Token) (*ast.A
 	}
 
 	// Check if we got any statements
+	// The loop also ends when a cancellation turned the cursor into end of input: a statement
+	// list cut short by it is never a successful parse.
+	if p.cancelErr != nil {
+		ast.ReleaseAST(result)
+		return nil, fmt.Errorf("parsing cancelled: %w", p.cancelErr)
+	}
+
 	if len(result.Statements) == 0 {
 		ast.ReleaseAST(result)
 		if err := p.checkStrictEmpty(); err != nil {
@@ -618,6 +634,7 @@ func (p *Parser) Release() {
 	p.currentToken = token.Token{}
 	p.depth = 0
 	p.ctx = nil
+	p.cancelErr = nil
 	// Position mapping and options belong to the parse / holder that is being
 	// released: leave nothing behind, exactly like Reset.
 	p.positions = nil
@@ -674,11 +691,9 @@ func (p *Parser) Release() {
 // Thread Safety: NOT thread-safe - operates on parser instance state.
 func (p *Parser) parseStatement() (ast.Statement, error) {
 	// Check context if available
-	if p.ctx != nil {
-		if err := p.ctx.Err(); err != nil {
-			// Context cancellation is not a parsing error, return the context error directly
-			return nil, fmt.Errorf("parsing cancelled: %w", err)
-		}
+	if err := p.pollContext(); err != nil {
+		// Context cancellation is not a parsing error, return the context error directly
+		return nil, fmt.Errorf("parsing cancelled: %w", err)
 	}
 
 	// O(1) switch dispatch on Type (compiles to jump table).
@@ -770,9 +785,45 @@ func (p *Parser) checkStrictEmptySemicolon() error {
 	return nil
 }
 
+// contextPollInterval is the number of tokens the cursor may consume between two polls of the
+// context (a power of two; statements without expressions are otherwise parsed without any poll).
+const contextPollInterval = 64
+
+// pollContext reports the error of the parser's context, if there is one and it is done. The first
+// such error is remembered: from then on the context is not consulted again and the cursor reads
+// as end of input (see advance).
+func (p *Parser) pollContext() error {
+	if p.cancelErr != nil {
+		return p.cancelErr
+	}
+	if p.ctx == nil {
+		return nil
+	}
+	if err := p.ctx.Err(); err != nil {
+		p.cancelErr = err
+		return err
+	}
+	return nil
+}
+
 // advance moves to the next token
 func (p *Parser) advance() {
 	p.currentPos++
+	if p.ctx != nil {
+		// Poll the context every contextPollInterval tokens, so that a cancellation is honoured
+		// after a bounded amount of work whatever the statement looks like.
+		if p.cancelErr == nil && p.currentPos&(contextPollInterval-1) == 0 {
+			if err := p.ctx.Err(); err != nil {
+				p.cancelErr = err
+			}
+		}
+		if p.cancelErr != nil {
+			// Cancelled: every loop keyed on the current token stops; ParseContext reports
+			// the context error instead of whatever the truncated input leads to.
+			p.currentToken = token.Token{Type: models.TokenTypeEOF}
+			return
+		}
+	}
 	if p.currentPos < len(p.tokens) {
 		p.currentToken = p.tokens[p.currentPos]
 	} else if p.currentPos > len(p.tokens) {
